@@ -549,11 +549,36 @@ def _noabort_rule(chk, prog):
     entries = [e for e in (cg.find(nm) for nm in ("cfun_asm", "cfun_unmarshal")) if e]
     if len(entries) != 2:
         raise AnalysisBroken("cfun_asm / cfun_unmarshal not found")
+    # The reader has an internal mode (JANET_MARSHAL_DECREF: read a discarded message back only to drop its references)
+    # that the Janet-level unmarshal cannot select - it passes literal flags.  Calls made only under that flag are not
+    # reachable from the two entry points.  The premise is checked: cfun_unmarshal hands janet_unmarshal a constant.
+    um = cg.funcs[cg.find("cfun_unmarshal")]
+    internal_only = all(len(c.args) >= 3 and strip_casts(c.args[2]).k == "int" for c in um.calls("janet_unmarshal")) and bool(um.calls("janet_unmarshal"))
+
+    def gated(site):
+        q = site.parent
+        while q is not None:
+            if q.k == "if" and any("JANET_MARSHAL_DECREF" in y.macro_names() for y in q.kids[0].walk()):
+                # only the true arm is the internal mode
+                arm = q.kids[1]
+                if any(y is site for y in arm.walk()):
+                    return True
+            q = q.parent
+        return False
     fwd = set(entries)
     work = list(entries)
     while work:
         x = work.pop()
+        skip = set()
+        if internal_only:
+            per = {}
+            for (n_, tgt, kind) in cg.sites.get(x, ()):
+                for t in tgt:
+                    per.setdefault(t, []).append(gated(n_))
+            skip = set(t for t, gs in per.items() if gs and all(gs))
         for y in cg.edges.get(x, ()):
+            if y in skip:
+                continue
             if y not in fwd and isinstance(y, tuple):
                 fwd.add(y)
                 work.append(y)
